@@ -61,6 +61,9 @@ type kvElection struct {
 
 	ctx    context.Context
 	cancel context.CancelFunc
+	// termCancel cancels the context the promotion callback of the current
+	// term runs with. Set by becomeLeader, called when the term ends.
+	termCancel context.CancelFunc
 
 	onPromote func(ctx context.Context, token string)
 	onDemote  func()
@@ -404,6 +407,11 @@ func (e *kvElection) becomeLeader(token string, rev uint64) {
 	ctx := e.ctx
 	onPromote := e.onPromote
 
+	// The promotion context lives as long as the term: demote cancels it,
+	// and stopping the election cancels its parent.
+	termCtx, termCancel := context.WithCancel(ctx)
+	e.termCancel = termCancel
+
 	e.wg.Add(1)
 	go func() {
 		defer e.wg.Done()
@@ -435,7 +443,7 @@ func (e *kvElection) becomeLeader(token string, rev uint64) {
 					)
 				}
 			}()
-			promoteCtx, cancel := context.WithCancel(ctx)
+			promoteCtx, cancel := context.WithCancel(termCtx)
 			defer cancel()
 			onPromote(promoteCtx, token)
 		}()
@@ -550,6 +558,10 @@ func (e *kvElection) demote(unlessLeader bool) bool {
 	e.lastTransition.Store(time.Now())
 
 	if wasLeader {
+		if e.termCancel != nil {
+			e.termCancel()
+			e.termCancel = nil
+		}
 		e.recordLeaderDuration()
 		e.leaderStartTime.Store(time.Time{})
 	}
